@@ -156,7 +156,7 @@ pub fn blob_len(mix: SizeMix) -> BoxedStrategy<usize> {
 }
 
 pub fn blob(mix: SizeMix) -> impl Strategy<Value = Blob> {
-    (blob_len(mix), any::<u16>(), prop_oneof![6 => Just(Fill::Rand), 1 => Just(Fill::Zero), 2 => Just(Fill::Text)])
+    (blob_len(mix), any::<u16>(), prop_oneof![12 => Just(Fill::Rand), 2 => Just(Fill::Zero), 4 => Just(Fill::Text), 1 => Just(Fill::ZeroTail), 1 => Just(Fill::ZeroHead), 1 => Just(Fill::Lines), 1 => Just(Fill::RecordLike), 1 => Just(Fill::DigestLike), 1 => Just(Fill::Ones)])
         .prop_map(|(len, salt, fill)| Blob { len, salt: salt as u64, fill })
 }
 
@@ -166,11 +166,20 @@ pub fn blob_pool(min: usize, max: usize, mix: SizeMix) -> impl Strategy<Value = 
         let mut out: Vec<Blob> = Vec::new();
         for (i, mut b) in v.into_iter().enumerate() {
             // make byte strings distinct: distinct (len, salt) pairs; empty blob only once
+            let mut tries = 0;
             while out.iter().any(|o| o.len == b.len && (b.len == 0 || o.bytes() == b.bytes())) {
                 if b.len == 0 {
                     b.len = 1 + i;
                 } else {
                     b.salt += 1;
+                }
+                tries += 1;
+                if tries > 6 {
+                    // patterned fills have few distinct values of a given length
+                    b.fill = Fill::Rand;
+                }
+                if tries > 300 {
+                    b.len += 1;
                 }
             }
             out.push(b);
@@ -404,7 +413,7 @@ pub fn by(nkeys: usize, nblobs: usize) -> impl Strategy<Value = By> {
 pub fn bufs() -> impl Strategy<Value = Vec<usize>> {
     prop_oneof![
         2 => Just(Vec::new()),
-        2 => vec(prop_oneof![Just(1usize), 1usize..64, 64usize..70000, Just(8192usize)], 1..4),
+        2 => vec(prop_oneof![4 => Just(1usize), 4 => 1usize..64, 4 => 64usize..70000, 4 => Just(8192usize), 1 => Just(0usize)], 1..4),
         1 => Just(vec![1usize]),
     ]
 }
